@@ -247,6 +247,12 @@ class C18(Prop):
             return self.check_scalars(case, stt)
         parts, mode = tuple(case["parts"]), case["mode"]
         stt.count("mode:" + mode)
+        from vf.lang import walk as _walk
+
+        if any(n[0] == "ten" and n[1] for p in parts for n in _walk(p)):
+            # the compiler fragment has constants without named inputs only (a constant's batch dimensions are not
+            # substituted by the program): such an expression is outside the domain
+            raise Decline("constant-with-named-inputs(outside the compiler fragment)")
         inputs = {}
         for p in parts:
             for n, d in typeof(p)[0].items():
